@@ -5,7 +5,16 @@ import sys
 
 HERE = os.path.dirname(os.path.abspath(__file__))
 sys.path.insert(0, HERE)
-from manifest_data import CHECKS, NOT_APPLICABLE, SOURCE_COMMITS  # noqa: E402
+import glob  # noqa: E402
+import importlib  # noqa: E402
+
+from manifest_data import NOT_APPLICABLE, SOURCE_COMMITS  # noqa: E402
+
+CHECKS = {}
+for path in sorted(glob.glob(os.path.join(HERE, 'harness', 'c[0-9][0-9].py'))):
+    mod = importlib.import_module('harness.' + os.path.basename(path)[:-3])
+    if getattr(mod, 'MANIFEST', None) and getattr(mod, 'CLAIMED', True):
+        CHECKS[mod.PID] = mod.MANIFEST
 
 VERIF = os.path.dirname(HERE)
 ALL = [f'C{i:02d}' for i in range(1, 21)]
